@@ -101,6 +101,7 @@ REGEXES = [
     (r"(?P<s1>[ab]+)(?P<s2>x)?", "", "p"),
     (r"\t|あ", "s6", ""),
     (r"$", "s2", ""),
+    (r"(?P<s1>a*)(?P<s2>b)", None, ""),  # a named group that matches the empty string must not become a span
 ]
 
 
@@ -803,25 +804,30 @@ def replay(ctx, case):
 
 
 MANIFEST = {
-    "text": "Lean 4 theorems (Props/C05.lean; no bound on string length, number of spans or number of operations) about a "
+    "text": "Lean 4 theorems (Props/C05.lean, 43 obligations; no bound on string length, number of spans or number of operations) about a "
     "statement-by-statement model of rich/text.py (Model/Text.lean: Span, Text with the separately stored _length, every mutator, "
-    "divide with its value-keyed order dict, render's event sort + style-id stack) and of control.strip_control_codes (table "
-    "re-translated from rich/control.py every run): the state invariant Inv (len() = len(plain), no strippable control code, every span "
-    "0 <= start <= end <= len) holds after construction for every string and is preserved by every operation and hence by every history "
-    "(inv_init, inv_step, inv_history, step_total); per-operation refinement view(op t) = <list operation>(view t) - characters, order and "
-    "the ordered list of style names of every survivor - for construction, copy, append(str), append(Text)/append_text, the plain setter, "
-    "pad_left, pad_right, right_crop (every amount >= 0), set_length, text[i], join (and the invariant for assemble), stylize (exact slice semantics for negative / out-of-range "
-    "offsets), copy_styles / highlighters; styling-only operations never change characters or len() (any arguments). Six defects of rich "
-    "9.10.0 are carried as model variant flags with machine-checked witnesses (old_* theorems). "
-    "Tie: every modelled function (27 driver entry points incl. divide, split, slices, join, assemble, expand_tabs, truncate, align, "
-    "rstrip_end, render) is compared state-by-state (plain, _length, spans, style, attributes and the render() segments) with real "
-    "rich.text.Text objects on ~70k (quick) / ~1M (thorough) generated requests per run; independently, a reference styled string "
-    "(list of (char, style names)) undergoes 'the same operation on an ordinary string' and is compared with plain / len() / render() of "
-    "the real object after every step of every history (bounded-exhaustive single operations with arguments inside, at and beyond both "
-    "ends + seeded random histories of 1..12 operations over 27 operation kinds, shrunk on failure).",
-    "note": "PARTIAL: the refinement/invariant theorems for divide (and what is built on it: split, text[a:b], expand_tabs), the view of assemble, "
-    "truncate/align/rstrip (instances of the proved plain-setter theorem) and render_view (render = view under Inv) "
-    "are stated in Props/C05.lean as open obligations, not proved; for these the evidence is the correspondence plus the direct evaluation. "
+    "divide, render's event sort + style-id stack) and of control.strip_control_codes (table re-translated from rich/control.py every run). "
+    "(1) render_view: for every consistent text render() raises nothing and its (character, combined style names) stream IS the reference "
+    "semantics view(t) = each character under the base style then the covering spans in span order - proved for the event-sort/stack "
+    "algorithm as written, for any sorted arrangement of the events. (2) The state invariant Inv (len() = len(plain), no strippable control "
+    "code, every span 0 <= start <= end <= len) holds after construction for every string and is preserved by every operation - append(str), "
+    "append(Text), append_text, stylize, copy_styles/highlighters, plain setter, pad_left, pad_right, right_crop, set_length, copy, "
+    "blank_copy, text[i], rstrip, truncate, align, join, assemble, divide, text[a:b], split(char), expand_tabs - and hence by every history "
+    "(inv_history_all). (3) Per-operation refinement view(op t) = <list operation>(view t): characters, order and the ordered style list of "
+    "every survivor, for all of these except the three marked partial; styling-only operations never change characters or len(). Seven "
+    "defects of rich 9.10.0 are carried as variant flags with machine-checked witnesses (old_* theorems); six are repaired in /repo. "
+    "Tie: 27 driver entry points compared state-by-state (plain, _length, spans, style, attributes and the render() segments) with real "
+    "rich.text.Text objects on ~110k (quick) / ~1M (thorough) generated requests per run; independently a reference styled string undergoes "
+    "'the same operation on an ordinary string' and is compared with plain / len() / render() after every step of every history "
+    "(bounded-exhaustive single operations with arguments inside, at and beyond both ends + seeded random histories of 1..12 operations "
+    "over 27 operation kinds, shrunk on failure); every earlier object of a history (receivers, operands, sibling pieces) is re-observed "
+    "after every later step, so aliasing between a text and its copies/pieces is visible.",
+    "note": "PARTIAL: get_slice_view_partial (bounds normalising to stop < start not proved), split_view_partial (single-character separator, "
+    "include_separator=True, concatenation-level), expand_tabs_view_partial (invariant + non-whitespace characters and styles; the column "
+    "arithmetic of the blanks is compared with rich and with an expandtabs-like oracle, not proved). divide_view / split_char_spec / "
+    "expandTabs_ink' are proved in Lemmas/WrapDivide.lean and Lemmas/WrapTabs.lean (built by property C02 on this model) and imported. "
+    "rstrip_end's amount (characters vs cells, flag RSTRIP_END_CHARS / Text.rstripEndW, pending_fixes/C08-rstrip-end-counts-cells.diff) is "
+    "pinned by model-vs-code only; C05's oracle checks that only trailing whitespace goes. "
     "Trusted: Lean kernel; axioms propext/Classical.choice/Quot.sound; translator harness/gen/text_tables.py (STRIP_CONTROL_CODES, and "
     "the running CPython's str.isspace set, cross-checked against regex \\s and str.rstrip); the correspondence harness; "
     "_text fragments are abstracted to their concatenation; styles are opaque names and 'same effective style' in the direct evaluation is "
@@ -830,6 +836,6 @@ MANIFEST = {
     "Domain (outside it only model-vs-code is compared): constructor spans inside the stripped text; counts/widths >= 0; divide offsets "
     "non-decreasing within the text; split separators without a proper border (rich itself only uses single characters; 'aaa'.split('aa') "
     "loses a character - reported, not adopted); no strip-control characters through append_tokens / pad character / plain setter (rich does "
-    "not strip there); Text.style is not None; tab size >= 1; negative _length states (only reachable through the right_crop defect) end a history.",
+    "not strip there); Text.style is not None; tab size >= 1; negative _length states end a history.",
     "design_ref": "DESIGN.md section 7, C05; pre-finding F1 (section 8)",
 }
